@@ -757,6 +757,19 @@ func TestC16Fixed(t *testing.T) {
 			c.Actions = append(c.Actions, cacheAction{Op: "search", Handle: 0, Q: q, K: 50, Eligible: el})
 		}
 	}
+	// a filtered search that needs more clusters than the default probe count (sparse eligible set,
+	// k larger than the index) between two identical plain searches through a second handle: the
+	// shared cached index must not keep search parameters of an earlier search
+	var evens []uint64
+	for d := uint64(0); d < 1200; d += 2 {
+		evens = append(evens, d)
+	}
+	c.Actions = append(c.Actions,
+		cacheAction{Op: "open", Field: "vec", Filter: false, Except: spec.DropSpec{Nil: true}},
+		cacheAction{Op: "search", Handle: 1, Q: []float32{1, 0, 0, 0}, K: 2400, Plain: true},
+		cacheAction{Op: "search", Handle: 0, Q: []float32{1, 0, 0, 0}, K: 2400, Eligible: evens},
+		cacheAction{Op: "search", Handle: 1, Q: []float32{1, 0, 0, 0}, K: 2400, Plain: true},
+		cacheAction{Op: "search", Handle: 0, Q: []float32{0, 1, 0, 0}, K: 3, Eligible: a})
 	c.Actions = append(c.Actions, cacheAction{Op: "close", Handle: 0})
 	sc := c
 	sc.Actions = sc.Actions[:1]
